@@ -2,6 +2,7 @@
 dependency DAG (callee pointers, self-recursion switches) is symbolic, the request sequence (cells, argument,
 spelling) is symbolic small-range data.  Oracle: plain recursion over the same parameters."""
 from kit import *  # noqa
+use_formula_memo()
 import kit
 
 N = 3
